@@ -789,14 +789,6 @@ void gt_exp(gt_t c, const gt_t a, const bn_t b) {
 }
 
 void gt_exp_sec(gt_t c, const gt_t a, const bn_t b) {
-	if (bn_bits(b) <= RLC_DIG) {
-		gt_exp_dig(c, a, b->dp[0]);
-		if (bn_sign(b) == RLC_NEG) {
-			gt_inv(c, c);
-		}
-		return;
-	}
-
 #if FP_PRIME < 1536
 	size_t d = ep_curve_frdim();
 	d = (d > 4 ? d / 4 : 1);
